@@ -327,6 +327,11 @@ def r06_3(cx):
     cx.report('R06.4', vb, 'first-verified', oki and okf and okm, 'bucket patterns are tried in bucket order; the first is_prefix_raw(cur, end) hit returns (pid, cur, cur + pat.len())' if oki and okf and okm else 'verify_bucket does not return the first verified pattern at cur')
 
 
+def cb_param(cb, i):
+    from acverif.rl import param_at
+    return param_at(cb, i)
+
+
 @only(X86)
 def r06_4(cx):
     s = cx.body('packed::pattern::Patterns::set_match_kind')
@@ -343,20 +348,54 @@ def r06_4(cx):
         if tf is not None and tl is not None and len(plain) == 1 and len(byk) == 1:
             rf, rl = s.reach(tf, cut_blocks=[gb]), s.reach(tl, cut_blocks=[gb])
             ok = plain[0] in rf and byk[0] not in rf and byk[0] in rl and plain[0] not in rl
-    lf = [n for n in names if re.search(r'slice::sort$|sort_unstable$', n)]
-    ll = [n for n in names if re.search(r'sort_by$|sort_by_key$', n)]
-    okkinds = len(lf) >= 1 and len(ll) >= 1
-    # leftmost-longest comparator: descending length, stable sort
-    cl = [b for p, b in cx.facts.bodies.items() if p.startswith('packed::pattern::Patterns::set_match_kind::{closure#')]
-    okcmp = False
-    for c in cl:
-        cx.bodies_seen.add(c.path)
-        t = tstr(expand_vars(c, c.local_term(0, expand=True)), 400)
-        if 'reverse' in t and 'len' in t:
-            okcmp = True
-    stable = any(re.search(r'slice::sort_by$', n) for n in names)
-    cx.report('R06.4', s, 'order', ok and okkinds and okcmp and stable, 'leftmost-first: ascending id; leftmost-longest: stable sort by descending length' if ok and okkinds and okcmp and stable else
-              'Patterns::set_match_kind ordering deviates (sorts=%s, comparator reversed length=%s, stable=%s)' % (names, okcmp, stable))
+    # decided on the path summaries: per match kind the one sort applied to self.order, and the comparator by evaluation
+    from acverif.sym import summarize, canon, cstr, enum_table, teval
+    from acverif.rl import Unsupported, EvalPanic
+    rows = [r for r in summarize(cx.facts, s) if r.end == 'return']
+    tab = enum_table(cx.facts, rows, 'packed::api::MatchKind')
+    why = None
+    for kn, want in (('LeftmostFirst', 'plain'), ('LeftmostLongest', 'bylen')):
+        rs = tab.get(kn, [])
+        if not rs:
+            why = why or 'no path for %s' % kn
+        for r in rs:
+            sorts = [canon(c) for c in r.calls(r'slice::sort\w*$')]
+            if len(sorts) != 1 or cstr(sorts[0][2][0]) != 'self.order':
+                why = why or '%s: %d sorts of self.order (expected one)' % (kn, len(sorts))
+                continue
+            c = sorts[0]
+            nm = short(c[1])
+            if want == 'plain':
+                if not nm.endswith('slice::sort'):
+                    why = why or 'leftmost-first orders the patterns with %s (expected the stable ascending sort by id)' % nm
+            else:
+                if not nm.endswith('slice::sort_by'):
+                    why = why or 'leftmost-longest orders the patterns with %s (expected the stable sort_by: equal lengths keep insertion order)' % nm
+                    continue
+                f = c[2][1]
+                cb = cx.facts.bodies.get(f[2]) if f[0] == 'agg' and f[1] == 'closure' else None
+                if cb is None:
+                    why = why or 'the leftmost-longest comparator is not a closure literal'
+                    continue
+                cx.bodies_seen.add(cb.path)
+                crow = [x for x in summarize(cx.facts, cb) if x.end == 'return']
+                A, B = cstr(cb_param(cb, 2)), cstr(cb_param(cb, 3))
+
+                def at(t0, la=0, lb=0):
+                    s0 = cstr(t0)
+                    if re.search(r'(Pattern::len|slice::len|Vec::len)\(', s0) or s0.startswith('len('):
+                        if A in s0 and B not in s0:
+                            return la
+                        if B in s0 and A not in s0:
+                            return lb
+                    return None
+                try:
+                    for la, lb in ((1, 2), (2, 1), (3, 3), (0, 5), (7, 0)):
+                        if len(crow) != 1 or teval(crow[0].ret, lambda t0: at(t0, la, lb)) != ((lb > la) - (lb < la)):
+                            why = why or 'the leftmost-longest comparator does not order by descending pattern length (lengths %d, %d)' % (la, lb)
+                except (Unsupported, EvalPanic) as e:
+                    why = why or 'the leftmost-longest comparator cannot be evaluated: %s' % e
+    cx.report('R06.4', s, 'order', why is None, 'leftmost-first: ascending id; leftmost-longest: stable sort by descending length' if why is None else 'Patterns::set_match_kind ordering deviates: %s' % why)
     it = cx.body("<packed::pattern::PatternIter<'p> as core::iter::Iterator>::next")
     t = ' '.join(tstr(it.call_term(bi, tt), 200) for bi, tt in it.calls()) + ' '.join(tstr(it.rvalue_term(st['r'], 0, bi), 200) for bi in it.live_blocks() for st in it.blocks[bi]['stmts'] if st['k'] == 'assign')
     oki = 'order' in t
